@@ -12,12 +12,14 @@ RULE = ('every string of the bounded-exhaustive corpus (26-character alphabet in
         'blanks, NBSP, U+2028, U+0085, U+3000; quick length<=3 + slices of length 4, thorough '
         'length<=4 complete and length 5/6 over sub-alphabets) plus token sequences and seeded '
         'random Unicode texts, lexed with the graph and the triple-conjunction pattern, as one '
-        'string and (random part) as a list of lines with and without terminators. Non-trivial: '
+        'string and (random part) as a list of lines with and without terminators; alignment-shaped '
+        'texts with unusual prefix letters/digits (long s, Kelvin sign, dotless i, full-width and '
+        'Arabic-Indic digits); a sample lexed with DEBUG logging enabled. Non-trivial: '
         'the string yields at least two tokens.')
 ANCHORS = ['penman._lexer:lex', 'penman._lexer:_lex']
 PROBES = {'C08': 0, 'C07': 0}
 MIN_EVAL = {'quick': 20000, 'thorough': 400000}
-REQUIRED_COUNTERS = ['tokens']
+REQUIRED_COUNTERS = ['tokens', 'alignment_like', 'lexed_with_debug_logging']
 ASSUMPTIONS = ['the reference lexer (pmon/ref/lexer.py, no regular expressions) reads the lexical '
                'grammar of docs/notation.rst and the property text correctly']
 BATCH = 2000
@@ -54,6 +56,10 @@ def cases(ctx):
         if not ctx.time_left():
             break
         yield 'rand', {'i': i}
+        if i % 3 == 0:
+            yield 'aln', {'i': i}
+        if i % 10 == 0:
+            yield 'debuglog', {'i': i}
 
 
 def oracle(ctx, kind, p):
@@ -74,6 +80,39 @@ def oracle(ctx, kind, p):
         nt = _text.check_lexer(ctx, p['s'], as_lines=True)
         ctx.case(p['s'], nt >= 2)
         ctx.count('tokens', nt)
+    elif kind == 'aln':
+        rng = ctx.rng('aln', p['i'])
+        s = rng.choice(['(a / b', '(a :r', '(a / b :r c', 'x', '(a /']) + S.alignment_like(rng) + rng.choice(['', ')', ' )', ' c)'])
+        ctx.current = ['str', {'s': s}]
+        nt = _text.check_lexer(ctx, s)
+        ctx.case(s, nt >= 2)
+        ctx.count('tokens', nt)
+        ctx.count('alignment_like')
+    elif kind == 'debuglog':
+        # the token stream must not depend on the logging configuration
+        import logging
+        import penman
+        rng = ctx.rng('debuglog', p['i'])
+        t = T.rand_tree(rng, allow_empty_target=True, n_nodes=rng.choice([1, 2, 3]))
+        s = penman.format(penman.Tree(t), indent=rng.choice([None, -1]))
+        lg = logging.getLogger('penman')
+        old_level, old_prop = lg.level, lg.propagate
+        h = logging.NullHandler()
+        logging.disable(logging.NOTSET)
+        lg.addHandler(h)
+        lg.propagate = False
+        lg.setLevel(logging.DEBUG)
+        try:
+            ctx.current = ['str', {'s': s, 'logging': 'DEBUG'}]
+            nt = _text.check_lexer(ctx, s, as_lines=True)
+        finally:
+            lg.setLevel(old_level)
+            lg.propagate = old_prop
+            lg.removeHandler(h)
+            logging.disable(logging.CRITICAL)
+        ctx.case(('debug', s), nt >= 2)
+        ctx.count('tokens', nt)
+        ctx.count('lexed_with_debug_logging')
     elif kind == 'rand':
         import penman
         rng = ctx.rng('rand', p['i'])
